@@ -772,8 +772,8 @@ class Frame(object):
             # Integrate in time direction to capture temporal variations more
             # accurately
             if integrate_t_profile:
-                new_ts = np.linspace(0,
-                                     self.tchans * self.dt,
+                new_ts = np.linspace(self.ts[0],
+                                     self.ts[0] + self.tchans * self.dt,
                                      self.tchans * t_subsamples,
                                      endpoint=False)
                 y = t_profile(new_ts)
@@ -805,8 +805,8 @@ class Frame(object):
             # Average using integration to get a better position in frequency
             # direction
             if integrate_path:
-                new_ts = np.linspace(0,
-                                     tchans_eff * self.dt,
+                new_ts = np.linspace(self.ts[0],
+                                     self.ts[0] + tchans_eff * self.dt,
                                      tchans_eff * t_subsamples,
                                      endpoint=False)
                 f = path(new_ts)
